@@ -164,6 +164,25 @@ Theorem C06_document_with_group_listing_a_name_twice_never_builds :
 Proof. exact build_database_rejects_group_listing_a_name_twice. Qed.
 Print Assumptions C06_document_with_group_listing_a_name_twice_never_builds.
 
+(* a reference repeated — two reference blueprints (standalone or registered from an inline setting, any positions) that agree on
+   kind, both addresses as written, name, comment and actions; the inline flag is not compared — never builds: both copies resolve to
+   the same Column objects (the name index and every table's columns stay as they are while references are added), the first copy
+   stays in the database with its data, and the structural equality of the second with it makes add_reference refuse *)
+From PyDBML Require Import BuildRefs.
+Theorem C06_document_with_repeated_reference_never_builds :
+  forall s allow sq dq h0 h1 dd l1 dd1 l2 dd2 l3,
+    WW h0 -> (forall t tb, h_table h0 t = Some tb -> NoDup (names_of tb)) -> Forall good_table_bp (ps_tables s) ->
+    ps_refs s = l1 ++ PVBlue 4 dd1 :: l2 ++ PVBlue 4 dd2 :: l3 -> samekey dd1 dd2 ->
+    build_database s allow sq dq h0 <> (h1, Ok dd).
+Proof. exact build_database_rejects_duplicate_references. Qed.
+Print Assumptions C06_document_with_repeated_reference_never_builds.
+
+Theorem C06_repeated_reference_example :
+  samekey (ex_ref_dd "b" "a_id" "a" "id") (ex_ref_inline "b" "a_id" "a" "id")
+  /\ snd (build_database ex_doc_dupref false 0 1 []) = Raise EDatabaseValidation.
+Proof. exact duplicate_reference_example. Qed.
+Print Assumptions C06_repeated_reference_example.
+
 (* each of the document-level theorems above lifts to source texts: whatever blueprints the grammar produced for the text *)
 Theorem C06_source_never_parses_when_its_blueprints_never_build :
   forall source allow sq dq h0 st,
